@@ -142,6 +142,16 @@ def run_kani_unit(unit, workdir, tier, seed):
             detail = _rerun_single(unit, d, env, h)
             ur.cmds.append("cargo kani ... --harness %s   # re-run of a failed harness for details" % h)
             fcs = re.findall(r"Failed Checks: (.*?)\n\s*File: \"([^\"]+)\", line (\d+), in (\S+)", detail)
+            if not fcs and "at least one was expected" in detail:
+                # a #[kani::should_panic] harness: the real code is expected to refuse (panic); it returned normally instead.
+                ids = re.findall(r"\"(kani\.[A-Za-z0-9_.]+)\"", bodies[h])
+                aid = ids[0] if ids else "kani.%s/expected-panic" % h
+                oid = "%s@%s" % (aid, h)
+                if not any(o.id == oid for o in ur.obligations):
+                    ur.obligations.append(core.Obl(oid, unit.props_of(aid), unit.name, "kani", h, "assert"))
+                ur.failures.append(core.Failure(oid, unit.props_of(aid), unit.name, "kani", {"file": unit.append_to, "line": None, "function": h, "harness": h},
+                                                "the real code returned normally where it must refuse (expected panic did not occur)", _trim(detail), None, h))
+                continue
             if not fcs:
                 raise core.Undecided("kani unit %s: harness %s failed without a failed check (timeout / unwinding / unsupported construct): %s"
                                      % (unit.name, h, detail[-600:].replace("\n", " | ")))
